@@ -56,6 +56,11 @@ pub assume_specification<T: Clone, S: Clone, A: Allocator + Clone>[ <HashSet<T, 
     (s: &HashSet<T, S, A>) -> (r: HashSet<T, S, A>)
     ensures r@ == s@;
 
+// Result::unwrap_or (std documentation)
+pub assume_specification<T, E>[ std::result::Result::<T, E>::unwrap_or ](r: std::result::Result<T, E>, default: T) -> (out: T)
+    where E: std::marker::Destruct, T: std::marker::Destruct
+    ensures out == (match r { Ok(v) => v, Err(_) => default });
+
 // W1: `for x in <owned HashSet>` — std::collections::hash_set::IntoIter cannot be given an
 // iterator specification from outside vstd (orphan rule), so the iteration source is wrapped:
 // the elements are visited once each, in some order.
